@@ -185,9 +185,56 @@ func rulesC15(c *Ctx) {
 						}
 					}
 				}
+				// a check under another name counts by what it decides: applied to the entry, it refuses a script-capable
+				// scheme / a scheme other than https on a host that is not loopback (evaluated on the callee's own graph with
+				// the constant arguments of this call)
+				for _, call := range prm.AllCalls(rs.Body, false) {
+					fn := prm.Callee(call)
+					if fn == nil || fn == scheme || fn == httpsOrLb || fn.Pkg() == nil || fn.Pkg() != prm.Pkg.Types || len(call.Args) == 0 || prm.ObjOf(call.Args[0]) != prm.ObjOf(rs.Value) || rs.Value == nil {
+						continue
+					}
+					cf := c.P.FuncOf(fn)
+					if cf == nil || cf.Body == nil || !prm.failureReturnsError(call) {
+						continue
+					}
+					bools := c15ConstBoolArgs(prm, cf, call)
+					if c15RefusesAll(c, cf, 0, []string{"javascript", "data"}, bools) {
+						has[scheme] = true
+					}
+					if c15RefusesAll(c, cf, 0, []string{"http", "ftp", ""}, bools) {
+						has[httpsOrLb] = true
+					}
+				}
 				okLoop = has[scheme] && has[httpsOrLb]
 			})
 			c.Check(okLoop, "PRM:authorization-servers-validated#"+itoa(i), prm, r, "every authorization_servers entry passes checkURLScheme and checkHTTPSOrLoopback before the document is returned")
+		}
+		// what the two checks decide (the rules above and R-C15-1/-3 rely on their names): for a non-empty URL that parses,
+		// checkHTTPSOrLoopback accepts no scheme other than https on a host that is not loopback, and checkURLScheme accepts no
+		// script-capable scheme - evaluated with concrete schemes on the function's graph, whatever the spelling of the test
+		if hf := c.P.FuncOf(httpsOrLb); hf != nil && hf.Body != nil {
+			c.touch(hf)
+			for _, sch := range []string{"http", "ftp", ""} {
+				acc, dec := c15Accepts(c, hf, 0, sch, nil, 0)
+				key := "checkHTTPSOrLoopback:refuses-non-loopback[" + sch + "]"
+				if !dec {
+					c.Undecided(key, hf, nil, "the outcome for a %q URL on a host that is not loopback is computed in a way this rule does not evaluate", sch)
+				} else {
+					c.Check(!acc, key, hf, nil, "a URL with scheme %q on a host that is not loopback is never accepted (no `return nil` is reachable)", sch)
+				}
+			}
+		}
+		if sf := c.P.FuncOf(scheme); sf != nil && sf.Body != nil {
+			c.touch(sf)
+			for _, sch := range []string{"javascript", "data"} {
+				acc, dec := c15Accepts(c, sf, 0, sch, nil, 0)
+				key := "checkURLScheme:refuses[" + sch + "]"
+				if !dec {
+					c.Undecided(key, sf, nil, "the outcome for a %q URL is computed in a way this rule does not evaluate", sch)
+				} else {
+					c.Check(!acc, key, sf, nil, "a URL with the script-capable scheme %q is never accepted (no `return nil` is reachable)", sch)
+				}
+			}
 		}
 		asmF := c.Fn(pO, "", "GetAuthServerMeta")
 		ag := asmF.Graph()
@@ -350,7 +397,19 @@ func rulesC15(c *Ctx) {
 						return
 					}
 					calls := vf.CallsIn(rs.Body, chk, false)
-					if len(calls) == 0 {
+					// a check under another name, possibly steered by a column of the row (`check(u.value, u.fetched)`): it counts
+					// for a row when, with the row's constants bound to its boolean parameters, it decides what chk decides
+					var alt []*ast.CallExpr
+					for _, call := range vf.AllCalls(rs.Body, false) {
+						fn := vf.Callee(call)
+						if fn == nil || fn == scheme || fn == httpsOrLb || fn.Pkg() != vf.Pkg.Types || len(call.Args) == 0 {
+							continue
+						}
+						if cf := c.P.FuncOf(fn); cf != nil && cf.Body != nil && len(cf.NonRecvParams()) == len(call.Args) {
+							alt = append(alt, call)
+						}
+					}
+					if len(calls) == 0 && len(alt) == 0 {
 						return
 					}
 					cl := tableOf(rs)
@@ -421,6 +480,28 @@ func rulesC15(c *Ctx) {
 								if as, isSel := ast.Unparen(call.Args[0]).(*ast.SelectorExpr); isSel && vf.ObjOf(as.X) == rowVar && reach[vg.VertexOf(call)] {
 									out[name] = true
 								}
+							}
+						}
+						for _, call := range alt {
+							as, isSel := ast.Unparen(call.Args[0]).(*ast.SelectorExpr)
+							if !isSel || vf.ObjOf(as.X) != rowVar || !reach[vg.VertexOf(call)] || !vf.failureReturnsError(call) {
+								continue
+							}
+							cf := c.P.FuncOf(vf.Callee(call))
+							bools := c15ConstBoolArgs(vf, cf, call)
+							for i, a := range call.Args {
+								if sel, ok := ast.Unparen(a).(*ast.SelectorExpr); ok && vf.ObjOf(sel.X) == rowVar {
+									if bv, has := flags[sel.Sel.Name]; has {
+										bools[cf.NonRecvParams()[i]] = bv
+									}
+								}
+							}
+							schemes := []string{"javascript", "data"}
+							if chk == httpsOrLb {
+								schemes = []string{"http", "ftp", ""}
+							}
+							if c15RefusesAll(c, cf, 0, schemes, bools) {
+								out[name] = true
 							}
 						}
 					}
@@ -644,39 +725,83 @@ func rulesC15(c *Ctx) {
 		c.Check(fbGuard, "Authorize:fallback-only-without-metadata", az, nil, "the fallback is taken only when GetAuthServerMetadata returned (nil, nil)")
 	})
 
-	c.Rule("R-C15-9", "the client credentials used in a round are resolved against that round's authorization server: the handler keeps no resolved client between rounds (a remembered client is handed to whatever issuer the next discovery names, before the issuer binding is looked at)", func() {
+	c.Rule("R-C15-9", "the client credentials used in a round are resolved against that round's authorization server: a resolved client the handler remembers between rounds is handed on only when the issuer it was resolved for equals the issuer of this round (otherwise it is handed to whatever issuer the next discovery names, before the issuer binding is looked at)", func() {
 		h := c.P.LookupType("auth", "AuthorizationCodeHandler")
 		rc := c.P.LookupType("auth", "resolvedClientConfig")
 		c.Need(h != nil && rc != nil, "AuthorizationCodeHandler / resolvedClientConfig")
 		n := 0
 		for _, fld := range structFields(h) {
 			n++
-			holds := false
-			var walk func(t types.Type, d int)
-			walk = func(t types.Type, d int) {
-				if d > 5 {
-					return
+			holds, keyed := c15HoldsNamed(fld.Type(), rc, h)
+			c.sites++
+			if !holds {
+				c.add(c.rule, "handler-field:"+fld.Name(), c.P.Rel(fld.Pos()), vOK, "holds no resolved client")
+				continue
+			}
+			// the field remembers a resolved client: every place that takes the client out of it is examined under the
+			// valuation "the remembered issuer differs from this round's issuer"
+			nRead, bad := 0, ""
+			for _, f := range c.funcsWithLits(pA) {
+				if f.Body == nil || len(f.FieldRefs(f.Body, fld, false)) == 0 {
+					continue
 				}
-				switch x := t.(type) {
-				case *types.Named:
-					if x.Obj() == rc.Obj() {
-						holds = true
+				c.touch(f)
+				reads := c15ClientReads(f, fld, rc)
+				if len(reads) == 0 {
+					continue
+				}
+				g := f.Graph()
+				tainted := c15Tainted(f, fld)
+				fromMemory := func(e ast.Expr) bool {
+					hit := false
+					ast.Inspect(e, func(x ast.Node) bool {
+						if ex, ok := x.(ast.Expr); ok && !hit {
+							if f.IsField(ex, fld) {
+								hit = true
+							} else if fv, isF := f.ObjOf(ex).(*types.Var); isF && fv.IsField() && c15IsHandlerStringField(h, fv) {
+								hit = true // a remembered issuer kept next to the remembered client
+							} else if id, isID := ex.(*ast.Ident); isID && tainted[f.ObjOf(id)] {
+								hit = true
+							}
+						}
+						return !hit
+					})
+					return hit
+				}
+				reach := g.ReachUnder(func(e ast.Expr) tri {
+					e = ast.Unparen(e)
+					if ce, ok := e.(*ast.CallExpr); ok {
+						if fn := f.Callee(ce); fn != nil && fn.Name() == "IssuersEqual" && len(ce.Args) == 2 && (fromMemory(ce.Args[0]) || fromMemory(ce.Args[1])) {
+							return triFalse
+						}
+						return triUnknown
 					}
-				case *types.Pointer:
-					walk(x.Elem(), d+1)
-				case *types.Slice:
-					walk(x.Elem(), d+1)
-				case *types.Map:
-					walk(x.Key(), d+1)
-					walk(x.Elem(), d+1)
+					if x, y, op, ok := binaryCmp(e); ok && op == token.EQL && f.ConstVal(x) == nil && f.ConstVal(y) == nil && (fromMemory(x) != fromMemory(y)) {
+						bx, okx := f.TypeOf(x).Underlying().(*types.Basic)
+						by, oky := f.TypeOf(y).Underlying().(*types.Basic)
+						if okx && oky && bx.Kind() == types.String && by.Kind() == types.String && f.TypeOf(x) == f.TypeOf(y) && namedOf(f.TypeOf(x)) == nil {
+							return triFalse
+						}
+					}
+					return triUnknown
+				}, nil)
+				for _, r := range reads {
+					nRead++
+					if reach[g.VertexOf(r)] && bad == "" {
+						bad = f.At(r) + " (" + exprStr(r) + " in " + f.Name() + ")"
+					}
 				}
 			}
-			walk(fld.Type(), 0)
-			c.sites++
-			if holds {
-				c.add(c.rule, "handler-field:"+fld.Name(), c.P.Rel(fld.Pos()), vViolation, "AuthorizationCodeHandler."+fld.Name()+" keeps a resolved client between authorization rounds")
-			} else {
-				c.add(c.rule, "handler-field:"+fld.Name(), c.P.Rel(fld.Pos()), vOK, "holds no resolved client")
+			key := "handler-field:" + fld.Name()
+			switch {
+			case nRead == 0:
+				c.add(c.rule, key, c.P.Rel(fld.Pos()), vOK, "remembers a resolved client that nothing takes out again")
+			case keyed:
+				c.add(c.rule, key, c.P.Rel(fld.Pos()), vUndecided, "AuthorizationCodeHandler."+fld.Name()+" keeps resolved clients in a keyed collection; whether the key is the issuer of the round is not decided by this rule")
+			case bad != "":
+				c.add(c.rule, key, c.P.Rel(fld.Pos()), vViolation, "AuthorizationCodeHandler."+fld.Name()+" keeps a resolved client between authorization rounds, and it is taken out again at "+bad+" on a path on which the issuer it was resolved for differs from the issuer of this round")
+			default:
+				c.add(c.rule, key, c.P.Rel(fld.Pos()), vOK, "the remembered client is taken out only when the issuer it was resolved for equals the issuer of the round ("+itoa(nRead)+" reads)")
 			}
 		}
 		c.Pin("fields of AuthorizationCodeHandler", n, 3)
@@ -925,4 +1050,343 @@ func ruleErrorDiscipline(c *Ctx, id, doc string, flow map[string][]string, exemp
 		c.Pin("functions examined", nf, minF)
 		c.Pin("fallible calls", n, minN)
 	})
+}
+
+// c15HoldsNamed: values of type t contain (through pointers, slices, maps and struct fields of the handler's own package) a
+// value of the named type want; keyed says a map or slice lies on the way.
+func c15HoldsNamed(t types.Type, want, owner *types.Named) (holds, keyed bool) {
+	seen := map[types.Type]bool{}
+	var walk func(t types.Type, d int, k bool)
+	walk = func(t types.Type, d int, k bool) {
+		if d > 6 || seen[t] {
+			return
+		}
+		seen[t] = true
+		switch x := t.(type) {
+		case *types.Named:
+			if x.Obj() == want.Obj() {
+				holds = true
+				keyed = keyed || k
+				return
+			}
+			if x.Obj().Pkg() == owner.Obj().Pkg() && x.Obj() != owner.Obj() {
+				if st, ok := x.Underlying().(*types.Struct); ok {
+					for i := 0; i < st.NumFields(); i++ {
+						walk(st.Field(i).Type(), d+1, k)
+					}
+				}
+			}
+		case *types.Pointer:
+			walk(x.Elem(), d+1, k)
+		case *types.Slice:
+			walk(x.Elem(), d+1, true)
+		case *types.Map:
+			walk(x.Key(), d+1, true)
+			walk(x.Elem(), d+1, true)
+		case *types.Struct:
+			for i := 0; i < x.NumFields(); i++ {
+				walk(x.Field(i).Type(), d+1, k)
+			}
+		}
+	}
+	walk(t, 0, false)
+	return
+}
+
+// c15Tainted: the locals of f that (flow-insensitively) receive a value read out of field fld.
+func c15Tainted(f *Func, fld *types.Var) map[types.Object]bool {
+	out := map[types.Object]bool{}
+	from := func(e ast.Expr) bool {
+		for {
+			switch x := ast.Unparen(e).(type) {
+			case *ast.SelectorExpr:
+				if f.IsField(x, fld) {
+					return true
+				}
+				e = x.X
+			case *ast.StarExpr:
+				e = x.X
+			case *ast.IndexExpr:
+				e = x.X
+			case *ast.UnaryExpr:
+				e = x.X
+			case *ast.Ident:
+				return out[f.ObjOf(x)]
+			default:
+				return false
+			}
+		}
+	}
+	for changed, it := true, 0; changed && it < 8; it++ {
+		changed = false
+		for _, w := range Writes(f.Body, false) {
+			if w.RHS == nil {
+				continue
+			}
+			v, ok := f.ObjOf(w.LHS).(*types.Var)
+			if _, isID := ast.Unparen(w.LHS).(*ast.Ident); !ok || !isID || v.IsField() || out[v] {
+				continue
+			}
+			if from(w.RHS) {
+				out[v] = true
+				changed = true
+			}
+		}
+	}
+	return out
+}
+
+// c15ClientReads: the expressions of f that take a value of the named type want (or a pointer to it) out of field fld, directly
+// or through locals copied from it, and use it as a value (not merely as the base of a further field selection, and not as the
+// target of an assignment).
+func c15ClientReads(f *Func, fld *types.Var, want *types.Named) []ast.Expr {
+	tainted := c15Tainted(f, fld)
+	isWant := func(t types.Type) bool {
+		if p, ok := t.(*types.Pointer); ok {
+			t = p.Elem()
+		}
+		nm, ok := t.(*types.Named)
+		return ok && nm.Obj() == want.Obj()
+	}
+	lhs := map[ast.Expr]bool{}
+	for _, w := range Writes(f.Body, false) {
+		lhs[w.LHS] = true
+	}
+	var out []ast.Expr
+	inspectNoLit(f.Body, func(n ast.Node) {
+		e, ok := n.(ast.Expr)
+		if !ok || lhs[e] {
+			return
+		}
+		switch e.(type) {
+		case *ast.SelectorExpr, *ast.IndexExpr, *ast.StarExpr:
+		default:
+			return
+		}
+		t := f.TypeOf(e)
+		if t == nil || !isWant(t) {
+			return
+		}
+		if sel, isSel := e.(*ast.SelectorExpr); isSel {
+			if _, isField := f.ObjOf(sel).(*types.Var); !isField {
+				return
+			}
+		}
+		// rooted in the field or in a local copied from it
+		root := e
+		rooted := false
+		for !rooted {
+			switch x := ast.Unparen(root).(type) {
+			case *ast.SelectorExpr:
+				if f.IsField(x, fld) {
+					rooted = true
+				}
+				root = x.X
+			case *ast.StarExpr:
+				root = x.X
+			case *ast.IndexExpr:
+				root = x.X
+			case *ast.Ident:
+				if !tainted[f.ObjOf(x)] {
+					return
+				}
+				rooted = true
+			default:
+				return
+			}
+		}
+		switch p := f.ParentOf(e).(type) {
+		case *ast.SelectorExpr:
+			if p.X == e {
+				return
+			}
+		case *ast.StarExpr, *ast.ParenExpr:
+			return
+		}
+		out = append(out, e)
+	})
+	return out
+}
+
+func c15IsHandlerStringField(h *types.Named, fv *types.Var) bool {
+	b, ok := fv.Type().Underlying().(*types.Basic)
+	if !ok || b.Kind() != types.String {
+		return false
+	}
+	for _, x := range structFields(h) {
+		if x == fv {
+			return true
+		}
+	}
+	return false
+}
+
+// c15ConstBoolArgs binds the boolean parameters of callee cf to the constant arguments of call.
+func c15ConstBoolArgs(f, cf *Func, call *ast.CallExpr) map[types.Object]bool {
+	out := map[types.Object]bool{}
+	ps := cf.NonRecvParams()
+	for i, a := range call.Args {
+		if i < len(ps) {
+			if bv, ok := f.ConstBool(a); ok {
+				out[ps[i]] = bv
+			}
+		}
+	}
+	return out
+}
+
+func c15RefusesAll(c *Ctx, cf *Func, pi int, schemes []string, bools map[types.Object]bool) bool {
+	for _, s := range schemes {
+		if acc, dec := c15Accepts(c, cf, pi, s, bools, 0); acc || !dec {
+			return false
+		}
+	}
+	return true
+}
+
+// c15Accepts evaluates a URL check (a function whose parameter pi is the URL text and whose last result is an error) for a
+// URL that is not empty, parses, has the scheme sch and a host that is not loopback: accepts says a `return nil` is reachable
+// under that valuation; decided is false when a reachable return hands back something the evaluation cannot judge.
+func c15Accepts(c *Ctx, f *Func, pi int, sch string, bools map[types.Object]bool, depth int) (accepts, decided bool) {
+	ps := f.NonRecvParams()
+	if pi >= len(ps) || f.Body == nil || depth > 2 {
+		return false, false
+	}
+	g := f.Graph()
+	// the URL text and its copies
+	urlVars := map[types.Object]bool{ps[pi]: true}
+	isScheme := func(e ast.Expr) bool { return false }
+	schemeVars := map[types.Object]bool{}
+	isScheme = func(e ast.Expr) bool {
+		switch x := ast.Unparen(e).(type) {
+		case *ast.SelectorExpr:
+			if fv, ok := f.ObjOf(x).(*types.Var); ok && fv.IsField() && fv.Name() == "Scheme" && fv.Pkg() != nil && fv.Pkg().Path() == "net/url" {
+				return true
+			}
+		case *ast.Ident:
+			return schemeVars[f.ObjOf(x)]
+		case *ast.CallExpr:
+			if fn := f.Callee(x); fn != nil && fn.Pkg() != nil && fn.Pkg().Path() == "strings" && (fn.Name() == "ToLower" || fn.Name() == "TrimSpace") && len(x.Args) == 1 {
+				return isScheme(x.Args[0])
+			}
+		}
+		return false
+	}
+	for it := 0; it < 4; it++ {
+		for _, w := range Writes(f.Body, false) {
+			if w.RHS == nil {
+				continue
+			}
+			if _, isID := ast.Unparen(w.LHS).(*ast.Ident); !isID {
+				continue
+			}
+			if o := f.ObjOf(w.RHS); o != nil && urlVars[o] {
+				urlVars[f.ObjOf(w.LHS)] = true
+			}
+			if isScheme(w.RHS) {
+				schemeVars[f.ObjOf(w.LHS)] = true
+			}
+		}
+	}
+	errT := types.Universe.Lookup("error").Type()
+	reach := g.ReachUnder(func(e ast.Expr) tri {
+		e = ast.Unparen(e)
+		if bv, ok := f.ConstBool(e); ok {
+			if bv {
+				return triTrue
+			}
+			return triFalse
+		}
+		if id, ok := e.(*ast.Ident); ok {
+			if bv, has := bools[f.ObjOf(id)]; has {
+				if bv {
+					return triTrue
+				}
+				return triFalse
+			}
+			return triUnknown
+		}
+		if ce, ok := e.(*ast.CallExpr); ok {
+			if fn := f.Callee(ce); fn != nil && fn.Name() == "IsLoopback" {
+				return triFalse
+			}
+			return triUnknown
+		}
+		x, y, op, ok := binaryCmp(e)
+		if !ok || op != token.EQL {
+			return triUnknown
+		}
+		if _, isC := f.ConstString(x); isC || isNilIdent(x) {
+			x, y = y, x
+		}
+		if isNilIdent(y) {
+			if t := f.TypeOf(x); t != nil && types.Identical(t, errT) {
+				return triTrue // the URL parses
+			}
+			return triUnknown
+		}
+		cs, isC := f.ConstString(y)
+		if !isC {
+			return triUnknown
+		}
+		if o := f.ObjOf(x); o != nil && urlVars[o] {
+			if cs == "" {
+				return triFalse
+			}
+			return triUnknown
+		}
+		if isScheme(x) {
+			if cs == sch {
+				return triTrue
+			}
+			return triFalse
+		}
+		return triUnknown
+	}, nil)
+	decided = true
+	for _, r := range f.Returns() {
+		if !reach[g.VertexOf(r)] || len(r.Results) == 0 {
+			continue
+		}
+		last := ast.Unparen(r.Results[len(r.Results)-1])
+		if isNilIdent(last) {
+			accepts = true
+			continue
+		}
+		if ce, ok := last.(*ast.CallExpr); ok {
+			fn := f.Callee(ce)
+			if fn != nil && fn.Pkg() != nil && (fn.Pkg().Path() == "fmt" || fn.Pkg().Path() == "errors") {
+				continue // an error value
+			}
+			if cf := c.P.FuncOf(fn); fn != nil && cf != nil && cf.Body != nil && fn.Pkg() == f.Pkg.Types {
+				// the decision is delegated: follow it with the constant arguments of the call
+				api := -1
+				for i, a := range ce.Args {
+					if o := f.ObjOf(a); o != nil && urlVars[o] {
+						api = i
+					}
+				}
+				if api >= 0 {
+					a2, d2 := c15Accepts(c, cf, api, sch, c15ConstBoolArgs(f, cf, ce), depth+1)
+					accepts = accepts || a2
+					decided = decided && d2
+					continue
+				}
+			}
+			decided = false
+			continue
+		}
+		if _, isID := last.(*ast.Ident); isID {
+			// a bound error handed on: it is non-nil on the paths that test it; elsewhere the evaluation does not know
+			guards := g.GuardsAt(g.VertexOf(r))
+			o := f.ObjOf(last)
+			if hasAtom(guards, func(a Atom) bool { return AtomSaysNil(a, false, func(e ast.Expr) bool { return f.ObjOf(e) == o }) }) {
+				continue
+			}
+			decided = false
+			continue
+		}
+		decided = false
+	}
+	return accepts, decided
 }
